@@ -339,6 +339,7 @@ func runWorker(bin, test, tier string, shard, nshards, from, deadline int, seed 
 	var buf bytes.Buffer
 	cmd.Stdout, cmd.Stderr = &buf, &buf
 	_ = os.Remove(out + ".journal")
+	_ = os.Remove(out + ".hb")
 	err := cmd.Start()
 	stalled := false
 	if err == nil {
@@ -350,7 +351,7 @@ func runWorker(bin, test, tier string, shard, nshards, from, deadline int, seed 
 		tick := time.NewTicker(2 * time.Second)
 		defer tick.Stop()
 		last := time.Now()
-		var lastSize int64 = -1
+		var lastSize, lastHB int64 = -1, -1
 	loop:
 		for {
 			select {
@@ -359,6 +360,10 @@ func runWorker(bin, test, tier string, shard, nshards, from, deadline int, seed 
 			case <-tick.C:
 				if fi, e := os.Stat(out + ".journal"); e == nil && fi.Size() != lastSize {
 					lastSize, last = fi.Size(), time.Now()
+				}
+				// a case that enumerates many executions internally reports completed executions here
+				if fi, e := os.Stat(out + ".hb"); e == nil && fi.Size() != lastHB {
+					lastHB, last = fi.Size(), time.Now()
 				}
 				if time.Since(last) > stallLimit {
 					stalled = true
